@@ -972,14 +972,14 @@ def cases(tier, rng):
                         continue
                     yield {'ops': list(prefix) + [op], 'fault': {'step': step, 'reopen': reopen}}
     # random histories
-    n_random = 900 if tier == 'quick' else 40000
+    n_random = 900 if tier == 'quick' else 120000
     max_len = 4 if tier == 'quick' else 5
     for _ in range(n_random):
         n = rng.randint(3, max_len)
         ops = ['touch:a'] if rng.random() < 0.7 else []
         ops += [rng.choice(ALPHABET) if rng.random() < 0.8 else rng.choice(BASIC) for _ in range(n)]
         yield {'ops': ops}
-    n_rf = 300 if tier == 'quick' else 8000
+    n_rf = 300 if tier == 'quick' else 25000
     for _ in range(n_rf):
         ops = ['touch:a'] + [rng.choice(BASIC) for _ in range(rng.randint(1, max_len - 2))] + [rng.choice(FAULTABLE)]
         yield {'ops': ops, 'fault': {'step': rng.randrange(12), 'reopen': rng.random() < 0.4}}
